@@ -262,9 +262,17 @@ def lot_unit_price(a):
 def render_items(items, comms):
     """items: list of ("bucket", account) | ("xact", xact AST) -> journal text"""
     out = []
-    for kind, v in items:
+    for it in items:
+        kind, v = it[0], it[1]
         if kind == "bucket":
-            out.append("A " + v)
+            how = it[2] if len(it) > 2 else "A"
+            if how == "A":
+                out.append("A " + v)
+            elif how == "bucket":
+                out.append("bucket " + v)
+            else:
+                out.append("account " + v)
+                out.append("    default")
             out.append("")
         else:
             lines = render_xact(v, comms)
@@ -286,10 +294,22 @@ def warm_xact(warm):
     return xact(ps, date=jgen.day_of(2019, 1, 1), payee="warm")
 
 
+BUCKET_HOWS = ("A", "bucket", "account")
+BUCKET_ACCOUNTS = ["Assets:Bucket", "Assets:Cash", "Assets:Bank", "Equity:Opening"]
+
+
 def case_items(case):
+    """directives and transactions of a case: `decls` = [(spelling, account), …] default-account declarations in
+    sequence (the last one is case["bucket"]), optionally with a transaction on `Warm:` accounts between them"""
     items = []
-    if case.get("bucket"):
-        items.append(("bucket", case["bucket"]))
+    decls = case.get("decls")
+    if decls:
+        for k, (how, acct) in enumerate(decls):
+            if k and case.get("between"):
+                items.append(("xact", warm_xact({"AAA": 0})))
+            items.append(("bucket", acct, how))
+    elif case.get("bucket"):
+        items.append(("bucket", case["bucket"], "A"))
     if case.get("warm"):
         items.append(("xact", warm_xact(case["warm"])))
     items.append(("xact", case["xact"]))
@@ -841,6 +861,29 @@ class TGen:
         return self.case(ps, "lots:" + mode, warm=self.warm_for([stock, money], 0.25),
                          bucket=BUCKET if r.random() < 0.15 else None)
 
+    def bucket_decls(self):
+        """1-3 default-account declarations in sequence (`A X`, `bucket X`, `account X` + `default`, any mix;
+        the last one wins), optionally with a transaction between them, then a single-posting transaction —
+        or, as a control, a transaction with an elided posting, for which the bucket must NOT be used"""
+        r = self.rng
+        cs = self.comms(2)
+        control = r.random() < 0.2
+        if control:
+            c = self.one_null(n_other=r.randint(1, 3), ncomm=r.randint(1, 2), bucket=None)
+            ps = c["xact"]["posts"]
+        else:
+            ps = self.free_posts(1, cs, p_cost=0.35)
+            if r.random() < 0.1:
+                ps[0]["kind"] = "virtual"
+        n = r.choice([1, 2, 2, 3, 3])
+        accts = r.sample(BUCKET_ACCOUNTS, n)
+        decls = [(r.choice(BUCKET_HOWS), a) for a in accts]
+        case = self.case(ps, "decls:%s%s" % ("+".join(h for h, _ in decls), ":control" if control else ""),
+                         bucket=decls[-1][1], warm=self.warm_for(cs, 0.2))
+        case["decls"] = decls
+        case["between"] = r.random() < 0.5
+        return case
+
     def oddities(self):
         """null amount on a plain virtual posting, all-null transactions, amounts
         without commodity, cost in the amount's own commodity, zero amounts"""
@@ -943,7 +986,8 @@ def gen_journal(rng, n, p_bad=0.0, p_bucket=0.15, exact_only=False):
     day = jgen.day_of(2020, 1, 1)
     for i in range(n):
         if rng.random() < p_bucket:
-            items.append(("bucket", rng.choice([BUCKET, "Equity:Opening"])))
+            for _ in range(rng.choice([1, 1, 2, 3])):
+                items.append(("bucket", rng.choice(BUCKET_ACCOUNTS), rng.choice(BUCKET_HOWS)))
         x = rng.random()
         if x < p_bad:
             c = rng.choice([g.off_by, g.two_nulls])()
@@ -1004,8 +1048,100 @@ def gen_lot_journal(rng, n):
     return items
 
 
+def gen_bucket_journal(rng, n):
+    """declarations (all spellings) placed before and between single-posting transactions, each on its own
+    account, and now and then an elided-posting transaction as a control"""
+    g = TGen(rng)
+    items = []
+    day = jgen.day_of(2020, 3, 1)
+    if rng.random() < 0.8:
+        items.append(("bucket", rng.choice(BUCKET_ACCOUNTS), rng.choice(BUCKET_HOWS)))
+    for i in range(n):
+        for _ in range(rng.choice([0, 0, 1, 1, 2, 3])):
+            items.append(("bucket", rng.choice(BUCKET_ACCOUNTS), rng.choice(BUCKET_HOWS)))
+        day += rng.randint(0, 3)
+        c = rng.choice(POOL)
+        q = g.quantity(c, mag=rng.choice([0, 1, 2, 3]))
+        ps = [post("Exp:N%d" % i, rng.choice(["real", "real", "bvirtual"]), jgen.amt(q, c))]
+        if rng.random() < 0.25:
+            cc = rng.choice([x for x in POOL if x.name != c.name])
+            ps[0]["cost"] = dict(jgen.amt(F(rng.randint(1, 500), 100), cc, 2), per_unit=rng.random() < 0.6)
+        if rng.random() < 0.2:
+            ps.append(post("Ctl:N%d" % i, "real", None))
+        items.append(("xact", xact(ps, date=day, payee="b%d" % i)))
+    return items
+
+
+def oracle_bucket_journal(items, led):
+    """C02 on a journal of gen_bucket_journal: every single-posting transaction read while a default account is
+    declared is followed by one calculated posting on the account of the LAST declaration before it, carrying the
+    exact negation of its cost-or-amount; with an elided posting the bucket is not used"""
+    if led["kind"].startswith("died"):
+        return []
+    bucket = None
+    want = []
+    rejected = False
+    for it in items:
+        if it[0] == "bucket":
+            bucket = it[1]
+            continue
+        ps = it[1]["posts"]
+        p = ps[0]
+        if p["cost"] is not None:
+            c, q = p["cost"]["comm"], cost_total(p)
+        else:
+            c, q = p["amount"]["comm"], jgen.amt_q(p["amount"])
+        want.append((p["account"], jgen.amt_q(p["amount"]), p["amount"]["comm"], False))
+        if len(ps) == 2:
+            want.append((ps[1]["account"], -q, c, True))
+        elif bucket is not None:
+            want.append((bucket, -q, c, True))
+        elif q != 0:
+            rejected = True
+    if rejected:
+        return []
+    if led["kind"] != "ok":
+        return [("C02:bucket-rejected", "a journal of single-posting transactions under declared default accounts is rejected (%s)" % led["kind"])]
+    got = [(r[0], r[2][0], base_of(r[2][3]), r[3]) for r in led["rows"] if r[0] != "?"]
+    if got != want:
+        for k, (a, b) in enumerate(zip(got + [None] * len(want), want)):
+            if a != b:
+                return [("C02:bucket-wrong-account" if a is not None and b is not None and a[1:] == b[1:] else "C02:bucket-not-negation",
+                         "row %d is %s, the last declared default account requires %s" % (k, a, b))]
+    return []
+
+
+def run_bucket_journals(ctx, journals):
+    if not journals:
+        return
+    leds = vflib.pmap(run_ledger_journal, journals)
+    m1 = vflib.driver_run([journal_model_line(it, "id") for it in journals])
+    for items, led, a1 in zip(journals, leds, m1):
+        ctx.count()
+        ctx.feature("bucket-journal")
+        ctx.feature("bucket-declarations", len([1 for it in items if it[0] == "bucket"]))
+        for it in items:
+            if it[0] == "bucket":
+                ctx.feature("decl:" + (it[2] if len(it) > 2 else "A"))
+        if led["kind"] == "died:timeout":
+            ctx.feature("ledger-timeout-not-compared")
+            continue
+        m = parse_journal_model(a1)
+        if m["kind"] == "ok" and ((m["errors"] == 0 and led["rc"] == 0 and m["rows"] == led["rows"]) or
+                                  (m["errors"] > 0 and led["rc"] not in (0, None) and led["nerr"] == m["errors"])):
+            ctx.traces_validated += 1
+        else:
+            ctx.tie_broken("corr:journal.fin", "model and ledger disagree on\n%s\nmodel: %s\nledger: rc=%s %s" %
+                           (led["text"], a1[:400], led["rc"], show_rows(led["rows"])))
+            ctx.mism.append({"journal": led["text"], "model": a1[:1500], "ledger": {"rc": led["rc"], "rows": show_rows(led["rows"])}})
+        for fp, what in oracle_bucket_journal(items, led):
+            ctx.failing.append((fp, what, {"journal_text": led["text"], "items": items, "bucket_journal": True}, led))
+        ctx.nontrivial(led["text"])
+
+
 def journal_model_line(items, enum="id"):
-    js = {"items": [({"bucket": v} if k == "bucket" else {"xact": v}) for k, v in items]}
+    js = {"items": [({"bucket": it[1], "how": (it[2] if len(it) > 2 else "A")} if it[0] == "bucket" else {"xact": it[1]})
+                    for it in items]}
     return "journal.fin\t%s\t%s" % (json.dumps(js, ensure_ascii=False), enum)
 
 
@@ -1180,7 +1316,12 @@ def shrink(case, still_fails):
             cands.append(c2)
         if cur.get("warm"):
             c2 = json.loads(json.dumps(cur)); c2["warm"] = {}; cands.append(c2)
-        if cur.get("bucket"):
+        if cur.get("decls"):
+            for j in range(len(cur["decls"]) - 1):
+                c2 = json.loads(json.dumps(cur)); del c2["decls"][j]; cands.append(c2)
+            if cur.get("between"):
+                c2 = json.loads(json.dumps(cur)); c2["between"] = False; cands.append(c2)
+        elif cur.get("bucket"):
             c2 = json.loads(json.dumps(cur)); c2["bucket"] = None; cands.append(c2)
         for j, p in enumerate(cur["xact"]["posts"]):
             if p["state"] or cur["xact"]["state"]:
@@ -1444,6 +1585,35 @@ def boundary_cases(rng):
         add([post("A", "real", amt(q, "EUR")), post("B", "real", None)], "big-null")
     add([post("A", "real", jgen.amt(F(1, 10 ** 8), CMAP["BTC"])), post("B", "real", jgen.amt(-F(1, 10 ** 8), CMAP["BTC"]))], "tiny")
     add([post("A", "real", jgen.amt(F(2, 10 ** 8), CMAP["BTC"])), post("B", "real", jgen.amt(-F(1, 10 ** 8), CMAP["BTC"]))], "tiny-off")
+    # default-account declarations: every spelling alone, every ordered pair and some triples of spellings
+    # (the LAST one wins), with / without a transaction between them, then one posting; and the control with
+    # an elided posting (the bucket is not used)
+    def decl_case(decls, between, control=False, cost=False):
+        if control:
+            ps = [post("Expenses:Rent", "real", amt(700, "EUR")), post("Liabilities:Card", "real", None)]
+        else:
+            p = post("Expenses:Rent", "real", amt(700, "EUR"))
+            if cost:
+                p["cost"] = dict(jgen.amt(F(11, 10), CMAP["$"], 2), per_unit=True)
+            ps = [p]
+        c = g.case(ps, "edge:decls-%s%s%s" % ("+".join(h for h, _ in decls), "-between" if between else "", "-control" if control else ""),
+                   bucket=decls[-1][1])
+        c["decls"] = decls
+        c["between"] = between
+        return c
+    for h in BUCKET_HOWS:
+        out.append(decl_case([(h, "Assets:Cash")], False))
+        out.append(decl_case([(h, "Assets:Cash")], False, cost=True))
+        out.append(decl_case([(h, "Assets:Cash")], False, control=True))
+    for h1 in BUCKET_HOWS:
+        for h2 in BUCKET_HOWS:
+            for between in (False, True):
+                out.append(decl_case([(h1, "Assets:Cash"), (h2, "Assets:Bank")], between, cost=between))
+            out.append(decl_case([(h1, "Assets:Cash"), (h2, "Assets:Bank")], True, control=True))
+            out.append(decl_case([(h1, "Assets:Cash"), (h2, "Assets:Cash")], False))
+            for h3 in BUCKET_HOWS:
+                out.append(decl_case([(h1, "Assets:Cash"), (h2, "Assets:Bank"), (h3, "Equity:Opening")], h3 == "account"))
+    out.append(decl_case([("A", "Assets:Cash"), ("account", "Assets:Bank"), ("bucket", "Assets:Cash")], True))
     out += lot_boundary_cases(g)
     return out
 
@@ -1540,7 +1710,8 @@ def journal_classes(items):
     env = {}
     bucket = None
     out = []
-    for kind, v in items:
+    for it in items:
+        kind, v = it[0], it[1]
         if kind == "bucket":
             bucket = v
             continue
@@ -1566,7 +1737,7 @@ def run_journals(ctx, journals):
     for items, led, a1, a2 in zip(journals, leds, m1, m2):
         ctx.count()
         ctx.feature("journal")
-        nx = len([1 for k, _ in items if k == "xact"])
+        nx = len([1 for it in items if it[0] == "xact"])
         ctx.feature("journal-xacts", nx)
         if led["kind"] == "died:timeout":
             ctx.feature("ledger-timeout-not-compared")
@@ -1592,7 +1763,7 @@ def run_journals(ctx, journals):
         if agree:
             ctx.traces_validated += 1
         else:
-            ties = any(half_unit_tie({"xact": v, "warm": {}}) for k, v in items if k == "xact")
+            ties = any(half_unit_tie({"xact": it[1], "warm": {}}) for it in items if it[0] == "xact")
             if ties:
                 ctx.feature("half-unit-tie-not-compared")
             else:
@@ -1621,7 +1792,7 @@ def run_journals(ctx, journals):
                     rc2, out2, err2 = led["extra"][k]
                     tl = [l for l in out2.split("\n") if l.startswith("T|")]
                     rl = [l for l in out2.split("\n") if l.startswith("R|")]
-                    if k == 2 and any(p["kind"] == "bvirtual" for kk, v in items if kk == "xact" for p in v["posts"]):
+                    if k == 2 and any(p["kind"] == "bvirtual" for it in items if it[0] == "xact" for p in it[1]["posts"]):
                         continue      # --real leaves [bracketed] postings out: not the property's total
                     if tl:
                         f = tl[-1].split("|")
@@ -1646,6 +1817,7 @@ class MiniCtx:
     def __init__(self):
         self.failing, self.mism, self.ties, self.traces_validated = [], [], [], 0
 
+
     def count(self, n=1): pass
     def feature(self, *a): pass
     def nontrivial(self, *a): pass
@@ -1660,4 +1832,6 @@ def replay_journal(items):
     ctx = MiniCtx()
     items = [tuple(x) for x in items]
     run_journals(ctx, [items])
+    run_bucket_journals(ctx, [items]) if all(len(it[1]["posts"]) <= 2 and it[1]["posts"][0]["account"].startswith("Exp:N")
+                                             for it in items if it[0] == "xact") else None
     return [(fp, what) for fp, what, _, _ in ctx.failing], ctx.ties
